@@ -50,3 +50,5 @@ M("c11-adapter-early-set-lost", "C11", SYNC, "EventAdapter.set", "        if sel
 M("c11-adapter-is-set-stale", "C11", SYNC, "EventAdapter.is_set", "        return self._internal_event.is_set()", "        return self._is_set", ["R11-f"])
 M("c11-adapter-wait-not-awaited", "C11", SYNC, "EventAdapter.wait", "        await self._event.wait()", "        if not self._event.is_set():\n            await self._event.wait()", ["R11-f"])
 M("c11-condition-aexit-conditional", "C11", SYNC, "Condition.__aexit__", "        self.release()", "        if exc_type is None:\n            self.release()", ["R11-f"])
+# from seeded change C08/c (round 2)
+M("c11-adapter-wait-fast-path", "C11", SYNC, "EventAdapter.wait", "        await self._event.wait()", "        if self._internal_event is None and self._is_set:\n            await checkpoint_if_cancelled()\n            return\n\n        await self._event.wait()", ["R11-f"])
